@@ -125,3 +125,25 @@ Fixpoint model_obs (p : Probe) (w : World) (steps : list Step) (i : nat) : optio
       | S i' => model_obs p w' rest i'
       end
   end.
+
+(** ** send-time guard vectors (C08): the real keeper's v2 SendPacket on a context whose block time may lag the light
+    client's latest consensus timestamp (clock skew, not reachable with the shared clock of the two-chain harness),
+    replayed on [send2_tao] with that light-client view: client Active, one registered counterparty, one valid payload. *)
+Definition guard_chain (bt : N) : Chain AppSt :=
+  mkChain AppSt (fun _ => None) (fun _ => None) (fun _ => true)
+    (fun i => if i =? 1 then Some 1 else None) (fun _ => None) (fun _ => None)
+    (fun _ => None) (fun _ => false) (fun _ => None) (fun _ => None) (fun _ => false) (fun _ => None) (fun _ => None)
+    (fun i => if i =? 1 then Some 2 else None) (fun _ => None) 0 (mkH 1 10) bt [].
+
+Definition guard_env (lts : N) : Env AppSt :=
+  mkEnv AppSt (fun _ => true) (fun _ => mkH 1 5) (fun _ _ => Some lts) (fun _ _ _ _ => false) (fun _ _ _ => false) (fun _ => false)
+    (fun a _ _ => (a, None)) (fun a _ _ _ => Some a) (fun a _ _ => Some a)
+    (fun a _ _ _ _ _ => Some a) (fun a _ _ _ _ _ => (a, (R2Success, 0))) (fun a _ _ _ _ _ _ => Some a) (fun a _ _ _ _ _ => Some a).
+
+Definition send_guard_ok (bt tmo lts : N) (accepted : bool) : bool :=
+  let '(_, out, _) := msg_send2 (guard_env lts) (guard_chain bt) 1 tmo [mkPay 1 1 1 1 2] 0 in
+  Bool.eqb accepted (match out with Ok => true | _ => false end).
+
+Inductive FCase := FHist (c : Case) | FSendGuard (bt tmo lts : N) (accepted : bool).
+Definition fcheck (f : FCase) : bool :=
+  match f with FHist c => check c | FSendGuard bt tmo lts a => send_guard_ok bt tmo lts a end.
